@@ -225,7 +225,18 @@ def check_value(out, fail, produce, mod, cid, expected, label, st, bname, REC, R
 
     ffuncs.TABLE[other] = 123
     produce(other)
+    # ... and a call that produces the very same result (stored results are shared by content)
+    same = "same-" + cid
+    ffuncs.TABLE[same] = ffuncs.TABLE[cid]
+    call(produce, "normal", same)
     produce.forget(cid)
+    mark = REC.mark()
+    same_again = call(produce, "normal", same)
+    out["obs"]["forget_checks_with_an_equal_result_elsewhere"] += 1
+    if len(REC.since(mark)) != 0 or same_again[0] != "ret" or not domain.eq_safe(same_again[1], expected)[0]:
+        fail("forgetting a call lost another call's entry",
+             "%s value %s: after forget of this call, a call of another argument that had produced an equal result ran the body %d "
+             "times, outcome %s" % (label, desc, len(REC.since(mark)), domain.describe(same_again[1], 80)))
     mark = REC.mark()
     again = call(produce, "normal", cid)
     ran_again = len(REC.since(mark))
@@ -291,7 +302,21 @@ def check_exception(out, fail, produce, mod, cid, cls, args, label, st, bname, R
               else not (e.args and str(e.args[0]).startswith(msg))):
             fail("replayed exception lost the original message", "%s: original %r, replayed %r" % (label, msg, str(e)[:150]))
     if not non_memo:
+        # a call of another argument that fails in exactly the same way (recorded failures are shared by content)
+        from vf import ffuncs
+
+        same = "same-" + cid
+        ffuncs.TABLE[same] = ffuncs.TABLE[cid]
+        call(produce, "normal", same)
         produce.forget(cid)
+        for again in range(2):
+            mark = REC.mark()
+            later = call(produce, "normal", same)
+            out["obs"]["forget_checks_with_an_equal_result_elsewhere"] += 1
+            if len(REC.since(mark)) != 0 or later[0] != "raise" or type(later[1]) is not expect_cls:
+                fail("forgetting a call lost another call's entry",
+                     "%s: after forget of this call, call %d of another argument that had failed in the same way ran the body %d "
+                     "times, outcome %s" % (label, again, len(REC.since(mark)), domain.describe(later, 100)))
         mark = REC.mark()
         call(produce, "normal", cid)
         out["obs"]["forget_checks"] += 1
